@@ -1,7 +1,7 @@
 """C15 crash-point child.  Run as:  python -m vlib.c15_child <base_dir> <alias_dir> <shape> <salt>
 
 Drives the REAL DataManager (writer thread under the virtual-time scheduler, real files) through
-    save_all(v1) ; MARK ; save_all(v2) ; MARK ; save_all(v3) ; shutdown
+    save_all(v1) ; MARK ; save_all(v2) ; MARK ; save_all(v2 again) ; save_all(v3) ; shutdown
 while the parent has strace inject a SIGKILL or an errno into one syscall of the v2 save.  The main thread
 never touches the traced paths itself: it only hard-links the target into <base>/snap through <alias_dir> (a symlink to the
 data directory, which strace's -P path filter does not match), so only the writer thread's syscalls are counted.
@@ -60,6 +60,9 @@ def main(argv):
     sched.advance(5.0)
     os.access(mark, os.F_OK)            # ---- window ends
     snap("after_v2")
+    dm.save_all(V.crash_payload(shape, salt, 2))      # the owner saves the SAME content again (retry / unchanged state)
+    sched.advance(120.0)
+    snap("after_v2_again")
     dm.save_all(V.crash_payload(shape, salt, 3))
     sched.advance(120.0)
     snap("after_v3")
